@@ -1738,9 +1738,12 @@ def p_independent(key, key2, items, probes, size, fc, tweak):
     if sv != vals:
         return "serialize_gcs modified the value list of the caller"
     # the same input in the other container types a caller may hold it in
-    if C.hashed_items(key, tuple(items)) != vals or C.encode_gcs(key, tuple(items)) != fb or \
-            C.serialize_gcs(tuple(vals)) != fb:
-        return "hashed_items / encode_gcs / serialize_gcs of a tuple differ from those of the list"
+    try:
+        if C.hashed_items(key, tuple(items)) != vals or C.encode_gcs(key, tuple(items)) != fb or \
+                C.serialize_gcs(tuple(vals)) != fb:
+            return "hashed_items / encode_gcs / serialize_gcs of a tuple differ from those of the list"
+    except Exception as e:  # noqa
+        return f"hashed_items / encode_gcs / serialize_gcs refuse a tuple of elements ({type(e).__name__}: {e})"
     if len(set(items)) == n and (C.encode_gcs(key, set(items)) != fb or C.encode_gcs(key, dict.fromkeys(items[::-1])) != fb):
         return "encode_gcs of a set / of dict keys of distinct elements differs from that of the list"
     if len(set(vals)) == n and (CF(key, set(vals)).serialize() != fb or CF(key, frozenset(vals)).f != f):
@@ -1972,6 +1975,11 @@ def generate(ctx):
         yield ("prop", "bip158_vector", [i])
     yield ("prop", "bloom_vectors", [0])
     yield ("prop", "bloom_vectors", [1])
+
+    # ---- state left behind by failing calls / shared between results: a few self-contained cases FIRST, so that a
+    # leak is reported with an input that fails on its own (later cases run in the same process and would trip over
+    # what the malformed-input cases of the sections below leave behind, with replays that pass in isolation)
+    yield from gen_state(ctx, 4, "first")
 
     # ---- Golomb-Rice
     xs = list(GOLOMB_EDGE) + [2 ** k for k in range(27)] + [2 ** k - 1 for k in range(1, 27)]
@@ -2501,6 +2509,14 @@ def gen_audit(ctx):
                 continue
             yield ("prop", "cf_match", [key, nc, items[:10] + others])
             yield ("prop", "reserialize_stable", [key, nc])
+    for n in (0, 1, 2, 3, 5):           # the same for the count of filter hashes in cfheaders
+        stop, prev = ctx.rbytes(32), ctx.rbytes(32)
+        hs = [ctx.rbytes(32) for _ in range(n)]
+        for name, cnt in (("count-fd", b"\xfd" + struct.pack("<H", n)), ("count-fe", b"\xfe" + struct.pack("<I", n)),
+                          ("count-ff", b"\xff" + struct.pack("<Q", n)), ("count-smaller", ref_varint(n // 2)),
+                          ("count-zero-with-stream", b"\x00")):
+            ctx.label("audit/cfheaders-count/" + name)
+            yield ("corr", "cfheaders_last", [b"\x00" + stop[::-1] + prev + cnt + b"".join(hs)])
     for cnt in (0, 1, 2, 3, 7):
         for fill, name in ((0, "all-00"), (0xff, "all-ff"), (0x55, "all-55"), (0x80, "all-80")):
             for ln in (0, 1, 3, 8, 20):
@@ -2549,8 +2565,20 @@ def gen_audit(ctx):
         yield ("prop", "cfmsg_ctor", [0, bh, items, [b"", rscript(ctx, r)]])
 
     # (g) failing calls followed by a retry; results edited while their sources / siblings are used again
-    for k in range(ctx.n(14, 200)):
-        n = [1, 2, 3, 0, 5, 9, 17][k % 7]
+    yield from gen_state(ctx, ctx.n(14, 200), "audit")
+
+    # (a) membership asked with the library's Script objects
+    std = [b"\x76\xa9\x14" + ctx.rbytes(20) + b"\x88\xac", b"\x00\x14" + ctx.rbytes(20), b"\x00\x20" + ctx.rbytes(32),
+           b"\x51\x20" + ctx.rbytes(32), b"\xa9\x14" + ctx.rbytes(20) + b"\x87", b"\x6a\x04" + ctx.rbytes(4), b"\x51"]
+    for k in range(1, len(std) + 1):
+        ctx.label("audit/script-objects")
+        yield ("prop", "real_script", [ctx.rbytes(16), std[:k], [b"\x00\x14" + ctx.rbytes(20), b"\x52"]])
+
+
+def gen_state(ctx, count, tag):
+    r = ctx.rng
+    for k in range(count):
+        n = [2, 1, 3, 0, 5, 9, 17][k % 7]
         key = r.choice([ctx.rbytes(16), ctx.rbytes(16), bytes(16)])
         items = [rscript(ctx, r) for _ in range(n)]
         if n >= 3 and k % 2:
@@ -2566,13 +2594,6 @@ def gen_audit(ctx):
         key2 = r.choice([ctx.rbytes(16), key[:15] + bytes([key[15] ^ 1])])
         ctx.label("audit/independent-objects")
         yield ("prop", "independent", [key, key2, items, [rscript(ctx, r) for _ in range(3)] + [b""], size, fc, tweak])
-
-    # (a) membership asked with the library's Script objects
-    std = [b"\x76\xa9\x14" + ctx.rbytes(20) + b"\x88\xac", b"\x00\x14" + ctx.rbytes(20), b"\x00\x20" + ctx.rbytes(32),
-           b"\x51\x20" + ctx.rbytes(32), b"\xa9\x14" + ctx.rbytes(20) + b"\x87", b"\x6a\x04" + ctx.rbytes(4), b"\x51"]
-    for k in range(1, len(std) + 1):
-        ctx.label("audit/script-objects")
-        yield ("prop", "real_script", [ctx.rbytes(16), std[:k], [b"\x00\x14" + ctx.rbytes(20), b"\x52"]])
 
 
 def orderings(r, vals):
